@@ -341,3 +341,94 @@ Definition check_folders (c : list string * list string * list string * list str
   let '(keys, tl, ads, names) := c in
   jv_eqb (JList (map JStr (top_level_folders keys))) (JList (map JStr tl)) &&
   jv_eqb (JList (map JStr (map app_dep_name ads))) (JList (map JStr names)).
+
+(* ================================================================ recogniser of canonical reference strings
+   (appended for the proof strengthening of C09; nothing above is changed)
+
+   wf_string s = true  iff  s is the canonical spelling of a reference, i.e. (Proofs.v) s = print p for parts p of
+   the grammar wf_parts, i.e. the parsers read s back to exactly the parts it was printed from.  Built from the
+   same recognisers as the parsers: value.split(':') (split_colon), reference.split('/', 1), the regular
+   expressions stage([0-9]+) (stage_match, re.match) and %\([a-zA-Z0-9_.-]+\)s (var_search, re.search). *)
+
+(* p[: p.rfind('/')]  (the directory part without its final separator; "" when there is no '/') *)
+Fixpoint dir_raw (s : string) : string :=
+  match s with
+  | EmptyString => EmptyString
+  | String c s' => if hasc "/" s' then String c (dir_raw s') else EmptyString
+  end.
+
+(* an absolute path /dir/file whose directory part is not empty and does not end with a separator
+   (regular expression  /(.*[^/])?/[^/]*  restricted to strings with a non-empty group 1 ... = ^/.*[^/]/[^/]*$ ) *)
+Definition abs_canonical (a : string) : bool :=
+  let d := dir_raw a in negb (String.eqb d "") && negb (ends_slash d).
+
+(* the first path segment of a relative reference: either no stage prefix is recognised in front of its first
+   dot, or the prefix is spelled canonically (stage<decimal without leading zeros>, nothing after the digits)
+   and the producer after the dot holds no variable *)
+Definition canonical_seg (t : string) : bool :=
+  match split1 "." t with
+  | Some (st, job) => match stage_match st with
+                      | Some n => String.eqb st ("stage" ++ dec n) && negb (var_search job)
+                      | None => true
+                      end
+  | None => true
+  end.
+
+Definition wf_string (s : string) : bool :=
+  match split_colon s with
+  | None => false
+  | Some (a, _) =>
+      if startswith a "/" then abs_canonical a
+      else match split1 "/" a with
+           | Some (t0, _) => in_strs t0 Special || canonical_seg t0
+           | None => canonical_seg a
+           end
+  end.
+
+(* does re.match recognise a stage index in front of the first dot (same as Proofs.stage_prefixed) *)
+Definition has_stage_prefix (s : string) : bool :=
+  match split1 "." s with
+  | Some (st, _) => match stage_match st with Some _ => true | None => false end
+  | None => false
+  end.
+
+(* the accepted strings whose printed parse is a fixed point of parse-then-print: everything except
+   (F9a) an absolute path directly under the root (directory part only slashes) and
+   (F9e) a stage prefix in front of a variable producer that itself starts with a stage prefix *)
+Definition nf_guard (s : string) : bool :=
+  match split_colon s with
+  | None => true
+  | Some (a, _) =>
+      if startswith a "/" then negb (all_chars is_slash (head_raw a))
+      else match split1 "." (first_seg_of "/" a) with
+           | Some (st, job) => match stage_match st with
+                               | Some _ => negb (var_search job && has_stage_prefix job)
+                               | None => true
+                               end
+           | None => true
+           end
+  end.
+
+(* second observation of one (context, reference string): is the string canonical (impl: print(parse r) = r),
+   the guard, and parse (print (parse r)) against parse r without and with the context *)
+Definition reparse (r : string) (idx : option N) (ad sf : list string) : option bool :=
+  match parse_full r idx ad sf with
+  | None => None
+  | Some p => Some (match parse_full (print_pref p) idx ad sf with
+                    | Some p' => jv_eqb (jpref p') (jpref p)
+                    | None => false
+                    end)
+  end.
+
+Definition observe2 (c : ctx) (r : string) : jv :=
+  let tlf := top_level_folders (c_keys c) in
+  JList [ JBool (wf_string r); JBool (nf_guard r);
+          jres JBool (reparse r None [] []);
+          jres JBool (reparse r (Some (c_stage c)) (c_appdeps c) tlf) ].
+
+Definition check_case2 (ctxs : list ctx) (c : nat * string * jv * jv) : bool :=
+  let '(i, r, o, o2) := c in
+  match nth_error ctxs i with
+  | Some cx => jv_eqb (observe cx r) o && jv_eqb (observe2 cx r) o2
+  | None => false
+  end.
